@@ -751,24 +751,34 @@ func (r *mapRun) concurrentCloneFlush(rng *rand.Rand) {
 	for k := 1; k <= nk; k++ {
 		m1.Insert(ctx, kc.Key(k), 1)
 	}
-	c, err := m1.Clone(ctx)
-	if err != nil {
-		return
+	// sometimes the tree has been persisted before it is cloned (its clones then start from shared, clean nodes)
+	if rng.Intn(2) == 0 {
+		m1.MakeRoot(ctx)
 	}
-	m2 := &c
+	trees := []*mast.Mast{m1}
+	for i := 0; i < 1+rng.Intn(4); i++ {
+		c, err := m1.Clone(ctx)
+		if err != nil {
+			return
+		}
+		cc := c
+		trees = append(trees, &cc)
+	}
 	for i := 0; i < 40; i++ {
-		m1.Insert(ctx, kc.Key(1+rng.Intn(nk)), 2)
-		m2.Insert(ctx, kc.Key(1+rng.Intn(nk)), 3)
+		for j, m := range trees {
+			m.Insert(ctx, kc.Key(1+rng.Intn(nk)), 2+j)
+		}
 	}
-	done := make(chan struct{}, 2)
-	for _, m := range []*mast.Mast{m1, m2} {
+	done := make(chan struct{}, len(trees))
+	for _, m := range trees {
 		go func(m *mast.Mast) {
 			guard(func() error { _, err := m.MakeRoot(ctx); return err })
 			done <- struct{}{}
 		}(m)
 	}
-	<-done
-	<-done
+	for range trees {
+		<-done
+	}
 	ns := fmt.Sprintf("cloneflush/%s/bf%d/nk%d", r.cfg.NF, bf, nk)
 	for _, s := range st.allStores {
 		ev := stEvent{Op: "st", NS: ns, Tr: r.cfg.ID, Name: s.Name, BDig: nodeName(s.Bytes), HashOk: nodeName(s.Bytes) == s.Name,
